@@ -41,19 +41,20 @@ type KnownHit struct {
 }
 
 type Rec struct {
-	mu          sync.Mutex
-	ID          string
-	Rule        string
-	Evaluations int64
-	fps         map[uint64]struct{}
-	Classes     map[string]int64
-	Samples     []interface{}
-	maxSamples  int
-	Violations  []Violation
-	Known       map[string]*KnownHit
-	Extra       map[string]interface{}
-	Exhaustive  bool
-	Required    []string // classes that must be non-zero, else the harness is broken
+	mu                     sync.Mutex
+	ID                     string
+	Rule                   string
+	Evaluations            int64
+	fps                    map[uint64]struct{}
+	Classes                map[string]int64
+	Samples                []interface{}
+	maxSamples             int
+	Violations             []Violation
+	Known                  map[string]*KnownHit
+	Extra                  map[string]interface{}
+	Exhaustive             bool
+	Required               []string // classes that must be non-zero, else the harness is broken
+	DistinctByConstruction int64    // enumerated cases that are distinct by construction (index-addressed)
 }
 
 var (
@@ -96,6 +97,14 @@ func (r *Rec) NonTrivial(fp uint64) {
 	r.mu.Unlock()
 }
 
+// NonTrivialEnumerated counts n non-trivial cases that are distinct by construction
+// (members of an index-addressed enumeration), without storing fingerprints.
+func (r *Rec) NonTrivialEnumerated(n int64) {
+	r.mu.Lock()
+	r.DistinctByConstruction += n
+	r.mu.Unlock()
+}
+
 func (r *Rec) Class(names ...string) {
 	r.mu.Lock()
 	for _, n := range names {
@@ -125,7 +134,7 @@ func (r *Rec) Sample(v interface{}) {
 }
 
 func (r *Rec) SetExtra(k string, v interface{}) { r.mu.Lock(); r.Extra[k] = v; r.mu.Unlock() }
-func (r *Rec) SetExhaustive(b bool)            { r.mu.Lock(); r.Exhaustive = b; r.mu.Unlock() }
+func (r *Rec) SetExhaustive(b bool)             { r.mu.Lock(); r.Exhaustive = b; r.mu.Unlock() }
 
 // ---- known findings ----
 
@@ -232,18 +241,19 @@ func (r *Rec) Violation(f *Failure, check string, kase interface{}) string {
 // ---- dump ----
 
 type dumpRec struct {
-	ID          string                 `json:"id"`
-	Rule        string                 `json:"rule"`
-	Evaluations int64                  `json:"evaluations"`
-	Distinct    int                    `json:"distinct_nontrivial"`
-	Classes     map[string]int64       `json:"classes"`
-	Samples     []interface{}          `json:"samples"`
-	Violations  []Violation            `json:"violations"`
-	Known       []*KnownHit            `json:"known"`
-	Extra       map[string]interface{} `json:"extra"`
-	Exhaustive  bool                   `json:"exhaustive"`
-	Required    []string               `json:"required"`
-	MissingReq  []string               `json:"missing_required"`
+	ID           string                 `json:"id"`
+	Rule         string                 `json:"rule"`
+	Evaluations  int64                  `json:"evaluations"`
+	Distinct     int                    `json:"distinct_nontrivial"`
+	Classes      map[string]int64       `json:"classes"`
+	Samples      []interface{}          `json:"samples"`
+	Violations   []Violation            `json:"violations"`
+	Known        []*KnownHit            `json:"known"`
+	Extra        map[string]interface{} `json:"extra"`
+	Exhaustive   bool                   `json:"exhaustive"`
+	Required     []string               `json:"required"`
+	MissingReq   []string               `json:"missing_required"`
+	DistinctEnum int64                  `json:"distinct_by_construction"`
 }
 
 // Dump writes all recorders to $VERIF_STATS (JSON) and the fingerprints to $VERIF_STATS.fp.<id>.
@@ -264,7 +274,7 @@ func Dump() {
 		r := recs[id]
 		r.mu.Lock()
 		d := dumpRec{ID: r.ID, Rule: r.Rule, Evaluations: r.Evaluations, Distinct: len(r.fps), Classes: r.Classes,
-			Samples: r.Samples, Violations: r.Violations, Extra: r.Extra, Exhaustive: r.Exhaustive, Required: r.Required}
+			Samples: r.Samples, Violations: r.Violations, Extra: r.Extra, Exhaustive: r.Exhaustive, Required: r.Required, DistinctEnum: r.DistinctByConstruction}
 		for _, k := range r.Known {
 			d.Known = append(d.Known, k)
 		}
